@@ -34,24 +34,47 @@ def split_operands(text: str) -> list[str]:
     return out
 
 
-def normalise_operand(op: str) -> str:
+def _is_const(k: str) -> bool:
+    k = k[1:] if k.startswith("-") else k
+    k = k[2:] if k.startswith("0x") else k
+    return k != "" and all(c in HEXDIGITS for c in k)
+
+
+def _is_reg(r: str) -> bool:
+    return r.startswith("%") and len(r) > 1 and all(c.isalnum() for c in r[1:])
+
+
+def normalise_operand(op: str):
     """C09 table: $v->v, %r->%r, k(a,b,c)->[a+b*c+k], (a,b,c)->[a+b*c], k(,b,c)->[+b*c+k],
-    k(a)->[a+k], (a)->[a]; anything else unchanged."""
+    k(a)->[a+k], (a)->[a]; direct targets (bare hex) unchanged.  Returns None for operand
+    texts outside the table (segment overrides, *indirect, %st(1), ...): don't care."""
     if "(" in op and op.endswith(")"):
         i = op.index("(")
         k, inner = op[:i], op[i + 1:-1]
+        if k and not _is_const(k):
+            return None
         parts = inner.split(",")
         if len(parts) == 3:
             a, b, c = parts
+            if (a and not _is_reg(a)) or not _is_reg(b) or c not in ("1", "2", "4", "8"):
+                return None
+            if not a and not k:
+                return None
             core = f"{a}+{b}*{c}"
         elif len(parts) == 1:
+            if not _is_reg(parts[0]):
+                return None
             core = parts[0]
         else:
             return None  # outside the specified forms
         return f"[{core}+{k}]" if k else f"[{core}]"
     if op.startswith("$"):
-        return op[1:]
-    return op
+        return op[1:] if _is_const(op[1:]) else None
+    if _is_reg(op):
+        return op
+    if _is_const(op):
+        return op
+    return None
 
 
 def classify_line(line: str):
